@@ -79,10 +79,171 @@ def tableParse (t : List (Bytes × Option Url)) : Parse := fun s =>
 def srcTag (name : String) (o s g : Bool) : String :=
   name ++ ":" ++ (if o then "opt" else if s then "spec" else if g then "gen" else "dflt")
 
+/-! ### end-to-end lines (harness/bb/otlpe2e)
+
+The REAL exporter is built through the public API from the options and variables of the line and exports one batch;
+in-process collectors listen on distinct loopback ports (placeholders `127.0.0.1:1000K`, K = 1..3 HTTP, 4..6 gRPC,
+each accepting clear text and TLS). What the receiving collector saw is compared with the configuration
+`newConfig` resolves (agree) and judged clause by clause with the Spec functions `expectedEndpoint`, `pathOK`,
+`expectedHeaders`, `expectedComp`, `expectedTimeout` (spec). -/
+
+def strBytes (s : String) : Bytes := s.toUTF8.toList
+
+def e2eCols (exp : Exp) : List Bytes :=
+  (if exp.isHttp then ["1", "2", "3"] else ["4", "5", "6"]).map (fun k => strBytes ("127.0.0.1:1000" ++ k))
+
+/-- gRPC: the "path" is the full method of the signal's collector service -/
+def e2eMethod (exp : Exp) : Bytes :=
+  strBytes (match exp with
+    | .th | .tg => "/opentelemetry.proto.collector.trace.v1.TraceService/Export"
+    | .mh | .mg => "/opentelemetry.proto.collector.metrics.v1.MetricsService/Export"
+    | .lh | .lg => "/opentelemetry.proto.collector.logs.v1.LogsService/Export")
+
+def e2eContentType (exp : Exp) : Bytes :=
+  strBytes (if exp.isHttp then "application/x-protobuf" else "application/grpc")
+
+/-- product token of the User-Agent (up to the version) -/
+def e2eUserAgent (exp : Exp) : Bytes :=
+  strBytes (match exp with
+    | .th | .tg => "OTel OTLP Exporter Go"
+    | .mh | .lh => "OTel Go OTLP over HTTP"
+    | .mg => "OTel Go OTLP over gRPC metrics exporter"
+    | .lg => "OTel Go OTLP over gRPC logs exporter")
+
+/-- headers as HTTP/2 and gRPC metadata deliver them (and as the harness prints HTTP/1 headers): keys in lower case -/
+def wireHdrs (h : Hdrs) : Hdrs := h.map (fun kv => (toLower kv.1, kv.2))
+
+/-- the request path a URL with this `Path` produces (net/url: an empty path is sent as `/`, a relative one is rooted) -/
+def wirePath (p : Bytes) : Bytes :=
+  match p with
+  | [] => sSlash
+  | b :: _ => if b == 0x2f then p else 0x2f :: p
+
+/-- the configured paths an observed request path can stem from -/
+def wirePathSources (obs : Bytes) : List Bytes := [obs, obs.drop 1].filter (fun c => wirePath c == obs)
+
+/-- transport security as the clients wire it up (not part of the C20 statement; needed to predict what a collector
+can see). HTTP: the scheme follows `insecure`. gRPC trace/metric: credentials built from the certificate variable
+take priority over `insecure` ("Prioritize GRPCCredentials over Insecure"). -/
+def e2eUsesTLS (exp : Exp) (certVar : Bool) (insecure : Bool) : Bool :=
+  if exp.isHttp || exp.isLog then !insecure else (certVar || !insecure)
+
+/-- does the exporter trust the harness CA? Through OTEL_EXPORTER_OTLP_CERTIFICATE — which otlploggrpc loads but never
+hands to its dial options (known finding F39, `Spec.F39_applies`). -/
+def e2eTrustsCA (exp : Exp) (certVar : Bool) : Bool := certVar && exp != .lg
+
+structure E2EObs where
+  who : String
+  path : String
+  plain : String
+  hdrs : String
+  gz : String
+  ct : String
+  ua : String
+  dl : String
+  st : String
+
+/-- the timeout clauses: gRPC — the server saw a deadline consistent with `t` (bounds `lo:hi` in ns; `n` = none);
+stall — the export gave up before the stalled answer iff `0 < t < stall` -/
+def e2eTimeoutOK (exp : Exp) (stallNs : Int) (t : Int) (o : E2EObs) : Bool :=
+  (if exp.isHttp then o.dl == "-"
+   else if t ≤ 0 then o.dl == "n"
+   else match o.dl.splitOn ":" with
+     | [lo, hi] => (match lo.toInt?, hi.toInt? with
+       | some lo, some hi => decide (lo ≤ t) && decide (t ≤ hi)
+       | _, _ => false)
+     | _ => false) &&
+  (if stallNs == 0 then o.st == "-"
+   else o.st == (if 0 < t && t < stallNs then "T" else "D"))
+
+/-- all clauses for a request that got through: `pathOK` decides the path clause -/
+def e2eRequestOK (exp : Exp) (stallNs : Int) (pathOK : Bytes → Bool) (hd : Hdrs) (co : Bool) (t : Int) (o : E2EObs) : Bool × Bool :=
+  let rest :=
+    (match hdrTok o.hdrs with
+     | some h => h.isPerm (wireHdrs hd)
+     | none => false) &&
+    o.gz == b2s co && e2eTimeoutOK exp stallNs t o
+  let p := match parseHex o.path with
+    | some p => if exp.isHttp then (wirePathSources p).any pathOK else p == e2eMethod exp
+    | none => false
+  (rest, p)
+
+def e2eLine (inp obs : List String) : Option Verdict :=
+  match inp with
+  | _ :: _ :: ex :: _ :: opts :: epS :: epG :: insS :: insG :: hdS :: hdG :: coS :: coG :: toS :: toG :: table :: _ :: _ ::
+      stall :: tls :: _ => do
+    let exp ← expTok ex
+    let os ← optsTok opts
+    let e : OtlpEnv := { epS := ← envTok epS, epG := ← envTok epG, insS := ← envTok insS, insG := ← envTok insG,
+                          hdS := ← envTok hdS, hdG := ← envTok hdG, coS := ← envTok coS, coG := ← envTok coG,
+                          toS := ← envTok toS, toG := ← envTok toG }
+    let parse := tableParse (← tableTok table)
+    let stallNs : Int := (← stall.toNat?) * 1000000
+    let certVar := tls == "1"
+    let m := newConfig exp parse e os
+    let reach (ep : Bytes) : Bool := (e2eCols exp).contains ep
+    let usesTLS := e2eUsesTLS exp certVar m.insecure
+    let through := !usesTLS || e2eTrustsCA exp certVar
+    let modelStr := s!"{hexOf m.endpoint} {if exp.isHttp then hexOf m.path else "-"} tls={b2s usesTLS} through={b2s through} {renderHdrs (wireHdrs m.headers)} {b2s m.comp} {m.timeout}"
+    let f20 := Spec.F20_applies exp parse e os
+    let f39 := Spec.F39_applies exp certVar m.insecure
+    let epX := Spec.expectedEndpoint exp parse e os
+    let (agree, spec) : Bool × String :=
+      match obs with
+      | [who, path, plain, hdrs, gz, ct, ua, dl, st] =>
+        let o : E2EObs := { who, path, plain, hdrs, gz, ct, ua, dl, st }
+        -- (1) who received it
+        let agreeWho := if reach m.endpoint then who == hexOf m.endpoint else who == "-"
+        let specWho := if reach epX then who == hexOf epX else who == "-"
+        if who == "-" || who == "multi" || path == "?" then
+          -- nothing got through: at most a TLS handshake was seen. The model says whether that is expected.
+          let agree := agreeWho && (who == "-" || (who != "multi" && plain == "0" && usesTLS && !through))
+          -- a failed handshake although the certificate variable names the collector's CA is a failure — known
+          -- only in exactly the F39 way; without the variable the CA is not trusted and nothing can get through
+          (agree, if !specWho then "FAIL"
+                  else if who == "-" then "ok"
+                  else if f39 then "KNOWN:F39"
+                  else if certVar then "FAIL" else "ok")
+        else
+          let (mRest, mPath) := e2eRequestOK exp stallNs (· == m.path) m.headers m.comp m.timeout o
+          let agree := agreeWho && mRest && mPath && plain == b2s (!usesTLS) && through &&
+            ct == hexOf (e2eContentType exp) && ua == hexOf (e2eUserAgent exp)
+          let (sRest, sPath) := e2eRequestOK exp stallNs (Spec.pathOK exp (Spec.pathSource exp parse e os))
+            (Spec.expectedHeaders exp e os) (Spec.expectedComp exp e os) (Spec.expectedTimeout exp e os) o
+          (agree, if specWho && sRest && sPath then "ok"
+                  else if specWho && sRest && f20 then "KNOWN:F20" else "FAIL")
+      | ["err"] =>
+        -- the constructor returned an error (e.g. otlploghttp with a white-space-only signal-specific endpoint:
+        -- a URL without host): nothing can have been received; acceptable only for an unreachable endpoint
+        (!reach m.endpoint, if reach epX then "FAIL" else "ok")
+      | _ => (false, "FAIL")   -- constructor panic / malformed observation
+    let pathTag := match Spec.pathSource exp parse e os with
+      | .opt _ => "path:opt" | .specific _ => "path:spec" | .generic _ => "path:gen" | .dflt => "path:dflt"
+    let tags := [ srcTag "ep" (Spec.lastSome (Spec.optHost parse) os).isSome (Spec.provUrl exp parse e.epS).isSome
+                    (Spec.provUrl exp parse e.epG).isSome,
+                  srcTag "hd" (Spec.lastSome Spec.optHeaders os).isSome (Spec.provHeaders exp e.hdS).isSome
+                    (Spec.provHeaders exp e.hdG).isSome,
+                  srcTag "co" (Spec.lastSome (Spec.optComp exp) os).isSome (Spec.provComp exp e.coS).isSome
+                    (Spec.provComp exp e.coG).isSome,
+                  srcTag "to" (Spec.lastSome Spec.optTimeout os).isSome (Spec.provTimeout exp e.toS).isSome
+                    (Spec.provTimeout exp e.toG).isSome ]
+      ++ (if exp.isHttp then [pathTag] else [])
+      ++ (if f20 then ["F20"] else [])
+      ++ (if f39 then ["F39"] else [])
+      ++ (if usesTLS then [if through then "tls" else "tls-untrusted"] else ["clear"])
+      ++ (if m.comp then ["gzip"] else [])
+      ++ (if stallNs != 0 then [if 0 < m.timeout && m.timeout < stallNs then "timeout-fires" else "stall-outlived"] else [])
+      ++ (if !reach m.endpoint then ["unreachable"] else [])
+      ++ (if obs == ["err"] then ["ctor-error"] else [])
+    pure { agree := agree, spec := spec, nontrivial := true,
+           branches := ex ++ "," ++ ",".intercalate tags, model := modelStr }
+  | _ => none
+
 def stepLine (_ : Unit) (toks : List String) : Unit × Option Verdict :=
   let (inp, obs) := splitObs toks
   let obsS := " ".intercalate obs
   let r : Option Verdict :=
+    if inp.head? == some "e2e20" then e2eLine inp obs else
     match inp with
     | ["bsp", _, oq, ob, od, ot, eq, eb, ed, et] => do
       let i : BspIn := { oq := ← optTok oq, ob := ← optTok ob, od := ← optTok od, ot := ← optTok ot,
